@@ -75,6 +75,9 @@ type Compiler struct {
 	l             Logger
 	wr            ByteStringWriter
 	nc            bool
+	// Set mode: the statement that stores the copy of the enclosing struct-valued map entry back ("m[k] = x1").
+	// The code below the entry emits it after everything that changes the copy and is followed by a return.
+	setWB string
 
 	cnf *Config
 	err error
@@ -731,9 +734,9 @@ func (c *Compiler) writeNode(node, parent *node, recv, v, vsrc string, depth int
 							c.wl("inspector.AssignBuf(", pfx, v, ".", ch.name, ", value, buf)")
 						}
 					}
-					if parent != nil && parent.typ == typeMap && !node.ptr && len(vsrc) > 0 {
-						// v is a copy of a map entry: store it back.
-						c.wl(vsrc, " = ", v)
+					if len(c.setWB) > 0 {
+						// v is (part of) a copy of a map entry: store the copy back.
+						c.wl(c.setWB)
 					}
 					c.wl("return nil")
 				}
@@ -775,6 +778,10 @@ func (c *Compiler) writeNode(node, parent *node, recv, v, vsrc string, depth int
 							c.wl(nv, " = ", pfx, "z")
 						}
 						c.wl(v+"."+ch.name, " = ", nv)
+						if len(c.setWB) > 0 {
+							// The new container went into a copy of a map entry: store the copy back.
+							c.wl(c.setWB)
+						}
 						c.wl("}")
 					}
 				}
@@ -860,6 +867,18 @@ func (c *Compiler) writeNode(node, parent *node, recv, v, vsrc string, depth int
 					c.wl("}")
 				}
 			}
+			// In set mode the code below a struct held by value works on a copy of the entry and stores it back itself
+			// (further maps on the way are references again and start over).
+			below := func(nvsrc string) error {
+				wb := c.setWB
+				c.setWB = ""
+				if mode == modeSet && node.mapv.typ == typeStruct && !node.mapv.ptr {
+					c.setWB = nvsrc + " = " + nv
+				}
+				err := c.writeNode(node.mapv, node, recv, nv, nvsrc, depth+1, mode)
+				c.setWB = wb
+				return err
+			}
 			if node.mapk.typn == "string" {
 				// Key is string, simple case.
 				key := c.fmtP(node.mapk, "path["+depths+"]", depth+1)
@@ -874,7 +893,7 @@ func (c *Compiler) writeNode(node, parent *node, recv, v, vsrc string, depth int
 					nvsrc = c.fmtV(node, v) + "[" + key + "]"
 				}
 				allocInner(nvsrc)
-				err := c.writeNode(node.mapv, node, recv, nv, nvsrc, depth+1, mode)
+				err := below(nvsrc)
 				if err != nil {
 					return err
 				}
@@ -901,7 +920,7 @@ func (c *Compiler) writeNode(node, parent *node, recv, v, vsrc string, depth int
 					nvsrc = c.fmtV(node, v) + "[" + c.fmtP(node.mapk, "k", depth+1) + "]"
 				}
 				allocInner(nvsrc)
-				err = c.writeNode(node.mapv, node, recv, nv, nvsrc, depth+1, mode)
+				err = below(nvsrc)
 				if mode == modeSet {
 					c.wl(c.fmtV(node, v), "[", c.fmtP(node.mapk, "k", depth+1), "] = ", nv)
 					c.wl("return nil")
